@@ -854,7 +854,7 @@ func simplifyLambda(expression b6.Expression, functions SymbolArgCounts) b6.Expr
 		// The arguments dropped need to be all of the lambda's, and what
 		// remains can't depend on them, or be evaluated any earlier than
 		// it would have been.
-		if i > 0 && i == len(lambda.Args) && canDropLambdaArgs(lambda.Args, call, i) {
+		if i > 0 && i == len(lambda.Args) && canDropLambdaArgs(lambda.Args, call, i, functions) {
 			if i == len(call.Args) {
 				return Simplify(call.Function, functions)
 			}
@@ -869,9 +869,15 @@ func simplifyLambda(expression b6.Expression, functions SymbolArgCounts) b6.Expr
 	return expression
 }
 
-func canDropLambdaArgs(args []string, call b6.CallExpression, dropped int) bool {
-	if mentionsSymbols(call.Function, args) {
+func canDropLambdaArgs(args []string, call b6.CallExpression, dropped int, functions SymbolArgCounts) bool {
+	if _, ok := call.Function.AnyExpression.(b6.CallExpression); ok || mentionsSymbols(call.Function, args) {
 		return false
+	}
+	if symbol, ok := call.Function.AnyExpression.(b6.SymbolExpression); ok && dropped < len(call.Args) {
+		// Variadic functions can't be partially applied
+		if v, ok := functions.IsVariadic(symbol); ok && v {
+			return false
+		}
 	}
 	for _, arg := range call.Args[dropped:] {
 		if _, ok := arg.AnyExpression.(b6.CallExpression); ok || mentionsSymbols(arg, args) {
